@@ -2,7 +2,7 @@ import verif
 
 MANIFEST = dict(
 
-   text="Machine-checked Coq theorems about an executable Gallina model of PubkeyCache (explicit heap of cache objects: parent, trustedParentCount, pub2idx, idx2pub; Pubkey / ValidatorIndex / AddValidator with the Go control flow, recursion on fuel): for EVERY sequence of AddValidator and lookup calls over any number of handles forked from one another, starting from any duplicate-free registry, the model's outputs equal those of the specification in which each handle denotes a plain list of pubkeys (cache_refines, by a simulation relation and induction on the operation list). Corollaries: lookups answer exactly by position in the handle's own history and never report an entry that exists only on a sibling/parent branch; a known pair is a no-op; the next index appends in place leaving all other handles unchanged; a conflicting pair yields a fresh handle and every old handle denotes what it did; a gap (and a second registration of an already registered pubkey) is an error; every call returns (fuel = chain depth + 5 suffices; no panic). The two defects of the pinned snapshot (sibling leak; AddValidator never returning) are kept as refuted lemmas about the original code's model, the latter for every fuel by induction. The model is tied to /repo on every run by differential execution: random operation sequences (<= 40 calls, <= 6 handle variables, 4..8 real BLS keys) run on the real Go code in a watchdog child process, every handle queried for every index and pubkey after every call, object-chain shape read through a verif hook; the Coq model and the Spec are evaluated on the same sequences by vm_compute. A Go/Spec disagreement is reported with the operation sequence.",
+   text="Machine-checked Coq theorems about an executable Gallina model of PubkeyCache (explicit heap of cache objects: parent, trustedParentCount, pub2idx, idx2pub; Pubkey / ValidatorIndex / AddValidator with the Go control flow, recursion on fuel): for EVERY sequence of AddValidator and lookup calls over any number of handles forked from one another, starting from any duplicate-free registry, the model's outputs equal those of the specification in which each handle denotes a plain list of pubkeys (cache_refines, by a simulation relation and induction on the operation list). Corollaries: lookups answer exactly by position in the handle's own history and never report an entry that exists only on a sibling/parent branch; a known pair is a no-op; the next index appends in place leaving all other handles unchanged; a conflicting pair yields a fresh handle and every old handle denotes what it did; a gap (and a second registration of an already registered pubkey) is an error; every call returns (fuel = chain depth + 5 suffices; no panic). The two defects of the pinned snapshot (sibling leak; AddValidator never returning) are kept as refuted lemmas about the original code's model, the latter for every fuel by induction. The model is tied to /repo on every run by differential execution: random operation sequences (<= 40 calls, <= 6 handle variables, 4..8 real BLS keys) run on the real Go code in a watchdog child process, every handle queried for every index and pubkey after every call, object-chain shape read through a verif hook; the Coq model and the Spec are evaluated on the same sequences by vm_compute. A second, deposit-level layer models how phase0.ProcessDeposit drives the cache of an EpochsContext (exists = cache lookup below valCount; AddValidator at index valCount; returned handle stored back) over copies of states that share a handle: deposit_refines (same results and registries as the registry-driven Spec for every sequence of copies and deposits), deposit_never_fails, deposit_handle_extends_registry (in every reachable state each context's handle denotes a history extending that context's own registry). Its correspondence stream kick-starts a phase0 state (minimal preset, 8 real keys), copies contexts (CopyState + epc.Clone) and runs the real ProcessDeposit so that siblings add different keys at the same index, the same key, top-ups, forks of forks; after every op every context's cache tables are compared with the model and judged against that context's own state registry. A Go/Spec disagreement is reported with the operation sequence.",
    note="Trusted: Coq kernel+VM, the Go harness/driver, the hand-written model (tied by execution, not translation). No axioms (Print Assumptions: closed). Domain: duplicate-free deposit histories; indices are unbounded naturals (the uint64 wrap of trustedParentCount+len needs 2^64 keys); the RWMutex is not modelled (sequential semantics, concurrency is C17).",
    technique="Coq proof (simulation relation, induction on operation sequences) + Go-vs-model differential correspondence with a child-process watchdog",
    design="4/C16")
@@ -13,11 +13,11 @@ def make_check():
         "C16",
         make_targets=["Properties/C16.vo", "Pubkeys/CacheRun.vo"],
         trust=[
-            "hand-written Impl model Pubkeys/CacheModel.v of eth2/beacon/common/validator_pubkeys.go (with fixes/C16-trusted-parent-guard.diff applied); tied to the repository by differential execution of operation sequences, not by translation",
+            "hand-written Impl models Pubkeys/CacheModel.v of eth2/beacon/common/validator_pubkeys.go and Pubkeys/DepositModel.v of the cache-related part of phase0.ProcessDeposit + epc.Clone; tied to the repository by differential execution of operation sequences, not by translation",
             "the read-only hook eth2/beacon/common/verif_hooks_pubkeys.go (build tag verif) used to compare the object chain (trustedParentCount, table sizes)",
             "pubkeys are opaque to the cache (map key and equality only): the model numbers them 0..7, the harness uses SkToPk(1..8)",
         ],
-        model_files=["coq/Pubkeys/CacheSpec.v", "coq/Pubkeys/CacheModel.v", "coq/Pubkeys/CacheProofs.v", "coq/Pubkeys/CacheRun.v", "coq/Properties/C16.v"],
+        model_files=["coq/Pubkeys/CacheSpec.v", "coq/Pubkeys/CacheModel.v", "coq/Pubkeys/CacheProofs.v", "coq/Pubkeys/DepositModel.v", "coq/Pubkeys/DepositProofs.v", "coq/Pubkeys/CacheRun.v", "coq/Properties/C16.v"],
         notes="Histories are duplicate-free (a registry never holds a pubkey twice): AddValidator(i, p) with p already registered at an index below i is refused with an error by the Spec and by the repaired code. A Go call that does not return (runaway recursion: fatal stack overflow in the 2 MB-stack child, or 20 s without progress) is recorded as GoNoReturn.",
         harness_timeout=1500,
     )
